@@ -92,6 +92,18 @@ CHECKS = {
         "Isolated workers build Document values whose query-relevant keys are bound plausibly or chaotically (random kinds, dangling/self/cyclic references) plus chains and cycles up to 200,000 links, and call every public read-only query; the supervisor decides crash / panic / CPU bound / allocation per document.",
         "Says nothing about graphs not generated. CPU bound 5 s + 100 us per object for the whole bundle of queries.",
     ),
+    "C05": (
+        "exploration", "DESIGN.md §4 C05",
+        "runtime monitor: before/after snapshot oracle around Document::encrypt / decrypt (in memory and through save_to + load_mem) over an enumerated security-handler configuration space; ciphertext != plaintext scan; wrong-password rejection with unchanged-document check",
+        "Every handler version/key length/crypt-filter assignment is visited round-robin with sampled passwords and documents; decrypting with the user and with the owner password must restore every string and stream byte-for-byte and remove the encryption dictionary; nothing under a non-identity filter may stay in clear; wrong passwords are rejected without side effects.",
+        "Trusted: the abstract document model; exemptions (Identity, XRef, Metadata without EncryptMetadata, Crypt overrides) computed per ISO 32000.",
+    ),
+    "C06": (
+        "exploration", "DESIGN.md §4 C06",
+        "runtime monitor: differential oracle against an independent implementation of ISO 32000 Algorithms 1-13 (own MD5/SHA-2/AES/RC4, Python-derived SASLprep), both directions, through the reference writer / strict reader",
+        "Files encrypted by the reference handler must open in lopdf with the user and the owner password; files encrypted by lopdf must be authenticated and decrypted by the reference handler from the on-disk entries alone, Perms must pass Algorithm 13 and P must carry its reserved bits. lopdf's agreement with itself is never consulted.",
+        "Trusted: reference primitives (RFC/FIPS vectors + openssl/hashlib cross-checks), reference security handler (hand-built openssl vectors), Python stringprep tables.",
+    ),
     "C07": (
         "exploration", "DESIGN.md §4 C07",
         "runtime monitor: latest-wins sequential model over recorded revision histories (reference-writer files, every prefix loaded) + per-step invariants on IncrementalDocument saves checked with the strict reader",
